@@ -373,7 +373,10 @@ namespace occa {
       occa::device(modeMemory->getModeDevice())
       .malloc(byte_size(), *this, properties())
     );
-    mem.setDtype(dtype());
+    // Nothing is allocated for an empty memory
+    if (mem.isInitialized()) {
+      mem.setDtype(dtype());
+    }
 
     return mem;
   }
